@@ -33,6 +33,11 @@ def run(ctx) -> None:
     ctx.reuse("C17.open-config", c16.override_set)
     from .common import finally_jump_rule
 
+    from .common import empty_partial_rule
+
+    ctx.guard("C17.context", empty_partial_rule, "C17.context", ("BaseWorklist.__enter__", "BaseWorklist.__exit__", "BaseWorklist.save", "BaseWorklist.__repr__", "BaseWorklist.__str__"),
+              "the empty worklist is a record list like any other: its file must be written (replacing an older, longer file) and its text shown")
+    ctx.guard("C17.context", ctor_path_only)
     ctx.guard("C17.context", finally_jump_rule, "C17.context", ("BaseWorklist.__exit__", "BaseWorklist.save"),
               "a refusal of save() (wrong extension, unwritable target) never reaches the caller, the with-block ends as if the file had been written")
 
@@ -216,6 +221,47 @@ def context(ctx) -> None:
                         ctx.rep.check(not (truthy and raw_str), rule, f"{dev.name}.__exit__/configured-test", "'a path is configured' is decided by `is not None` or on a Path object",
                                       "the path is stored as the caller's str and __exit__ tests its truth value: a worklist created with filepath='' leaves the with-block without writing "
                                       "a file and without the refusal that save('') gives", where=ex.where(cs.call))
+
+
+def ctor_path_only(ctx) -> None:
+    """Constructing a worklist with a file path only *remembers* the path: the parameter is compared with None and handed to
+    Path(); nothing else is computed from it and the file system is not touched (a bare file name has no directory part,
+    a relative path is resolved when the file is written)."""
+    rule = "C17.context"
+    base = ctx.prog.require_class("BaseWorklist", rule)
+    n = 0
+    for dev in [base] + concrete_devices(ctx):
+        init = dev.methods.get("__init__")
+        if init is None or "filepath" not in init.params:
+            continue
+        n += 1
+        ctx.rep.touch(init)
+        parents = {}
+        for p_ in ast.walk(init.node):
+            for ch in ast.iter_child_nodes(p_):
+                parents[id(ch)] = p_
+        bad = []
+        for x in own_walk(init.node):
+            if not (isinstance(x, ast.Name) and x.id == "filepath" and isinstance(x.ctx, ast.Load)):
+                continue
+            par = parents.get(id(x))
+            if isinstance(par, ast.Compare) and all(isinstance(o, (ast.Is, ast.IsNot)) for o in par.ops):
+                continue
+            if isinstance(par, ast.Call) and call_fname(par) == "Path" and par.args == [x] and not par.keywords:
+                continue
+            if isinstance(par, (ast.Assign, ast.AnnAssign)) and par.value is x:
+                continue
+            if isinstance(par, ast.keyword) or (isinstance(par, ast.Call) and call_fname(par) == "__init__") or (isinstance(par, ast.Starred)):
+                continue  # handed on to the base constructor (checked by the override rule)
+            if isinstance(par, ast.Call) and isinstance(par.func, ast.Attribute) and par.func.attr == "__init__":
+                continue
+            if isinstance(par, ast.Call) and isinstance(par.func, ast.Attribute) and par.func.attr in ("debug", "info", "warning", "error", "log") and x in par.args[1:]:
+                continue  # a lazily formatted argument of a log call
+            bad.append(par if par is not None else x)
+        ctx.rep.check(not bad, rule, f"{init.qualname}/path-only", "the constructor only remembers the path (None test, Path(filepath))",
+                      f"the constructor computes `{show(bad[0])[:60] if bad else ''}` from the path before any file is written: a path that save() accepts (a bare file name, a not yet "
+                      "existing folder) can be refused or acted on at construction, and the with-block then writes nothing", where=init.where())
+    ctx.rep.floor(rule, "worklist constructors that take a file path", n, 1)
 
 
 def strings(ctx) -> None:
